@@ -110,6 +110,7 @@ def parse_module(text):
         ln = lines[i]
         if ln.startswith("define "):
             hdr = _clean(ln)
+            hdr = re.sub(r"\s+personality\s+.*?(?=\s*\{\s*$)", "", hdr)
             mm = _DEFINE_RE.match(hdr)
             if not mm:
                 raise ValueError("cannot parse define: " + ln)
